@@ -436,8 +436,8 @@ class base_pairs_callee:
     params = {"self": "Mapping2D3D"}
     requires = []
     returns = "list[rec[BasePair3D]]"
+    # (only the clauses a caller under contract needs; the lifting clauses proved for the body are not repeated here)
     ensures = ["result == self.base_pairs_value", "distinct(result)",
-               "lifted_from(self, result, len(self.base_pairs2d))", "lifts_all(self, result, len(self.base_pairs2d))",
                "implies(no_self_pairs(self), no_self(result))"]
     raises = []
     modifies = []
@@ -632,7 +632,7 @@ class generated_bpseq_data(generate_bpseq):
         # for base_pair in canonical
         1: {"index": "c1", "inv": ["keys_ok(matches)", "matches_has(matches, canonical, c1)", "matches_only(matches, canonical, c1)"]},
         # for pairs in matches.values()   (for-else)
-        2: {"index": "c2", "inv": ["canonical == CAN", "no_conflict_upto(matches, canonical, c2)"]},
+        2: {"index": "c2", "inv": ["canonical == CAN", "no_conflict_upto(matches, CAN, c2)"]},
     }
     ghost = [
         {"when": "after", "at": "canonical = [", "label": "filter",
@@ -646,8 +646,10 @@ class generated_bpseq_data(generate_bpseq):
         {"when": "after", "at": "if len(pairs) >", "label": "no-conflict-here",
          "do": ["let KEY2 = list(matches.keys())[c2]",
                 "assert KEY2 in matches",
-                "assert forall(lambda a: implies(0 <= a and a < len(canonical) and touches(canonical[a], KEY2), canonical[a] in pairs))",
-                "assert forall(lambda a, b: implies(0 <= a and a < b and b < len(canonical), not (touches(canonical[a], KEY2) and touches(canonical[b], KEY2))))"]},
+                "assert forall(lambda a: implies(0 <= a and a < len(CAN) and CAN[a].nt1_3d == KEY2, CAN[a] in pairs), pats=['ident(CAN[a].nt1_3d)'])",
+                "assert forall(lambda a: implies(0 <= a and a < len(CAN) and CAN[a].nt2_3d == KEY2, CAN[a] in pairs), pats=['ident(CAN[a].nt2_3d)'])",
+                "assert forall(lambda a, b: implies(0 <= a and a < b and b < len(CAN), not (CAN[a] in pairs and CAN[b] in pairs)))",
+                "assert forall(lambda a, b: implies(0 <= a and a < b and b < len(CAN), not (touches(CAN[a], KEY2) and touches(CAN[b], KEY2))))"]},
         {"when": "after", "at": "pairs = sorted(", "label": "conflict",
          "do": ["let KEY = list(matches.keys())[c2]",
                 "assert len(pairs) > 1 and pairs[0] != pairs[-1]",
